@@ -7,7 +7,7 @@ import traceback
 
 VERIF = os.path.dirname(os.path.dirname(os.path.abspath(__file__)))
 GEN = os.path.join(VERIF, 'coq', 'gen')
-MODULES = ['cache', 'dispatch']
+MODULES = ['cache', 'dispatch', 'smat']
 
 
 def write_if_changed(name, text):
